@@ -677,6 +677,10 @@ def check_c20(prop, tier, replay=None):
                 probs = []
                 if c or t:
                     probs.append("files left behind: cwd %s tmp %s" % (c[:4], t[:4]))
+                if r[0]["exit"] < 0 and s.get("fault") in ("sigint", "sigterm", "sighup"):
+                    # the process died OF the signal (it arrived after the handlers were gone, during interpreter shutdown):
+                    # the shell's name for that is 128 + signal number
+                    r[0]["exit"] = 128 - r[0]["exit"]
                 if r[0]["exit"] not in ok_exits[k]:
                     probs.append("exit status %d, the specification allows %s" % (r[0]["exit"], sorted(ok_exits[k])))
                 if r[0]["exit"] != 0 and r[0]["stdout"].strip():
@@ -709,6 +713,8 @@ def check_c20(prop, tier, replay=None):
                 ref = solo[json.dumps(s0, sort_keys=True)]
                 if s0.get("fault") == "sigint":        # when the signal arrives is not controlled here: any admissible exit, no partial output
                     ks = json.dumps(s0, sort_keys=True)
+                    if r["exit"] < 0:
+                        r["exit"] = 128 - r["exit"]
                     if r["exit"] not in ok_exits.get(ks, {0, 1, 130}) or (r["exit"] != 0 and r["stdout"].strip()):
                         run.violation("%s-p%d" % (name, i), {"round": name, "situations": sits, "process": i},
                                       {"why": "an interrupted process among others: inadmissible exit status or partial output", "exit": r["exit"], "stdout": r["stdout"][:200].decode(errors="replace")})
